@@ -569,6 +569,23 @@ func (e *Exec) evalInt(st *State, x ast.Expr) Term {
 
 func (e *Exec) evalSlice(st *State, x *ast.SliceExpr) Term {
 	bt := types.Unalias(e.typeOf(x.X)).Underlying()
+	if at, ok := bt.(*types.Array); ok {
+		// slice of an array (e.g. a [4]byte scratch field): modelled as a fresh buffer of that size with arbitrary
+		// contents; writes through it are not reflected back into the array (assumption, listed)
+		e.note("array-slice", e.fn.Key+": a slice of an array value is modelled as a fresh buffer (aliasing with the array is not tracked)")
+		e.eval(st, x.X)
+		lo := IntLit(0)
+		if x.Low != nil {
+			lo = e.evalInt(st, x.Low)
+		}
+		hi := IntLit(at.Len())
+		if x.High != nil {
+			hi = e.evalInt(st, x.High)
+		}
+		e.oblige(st, "slice", "", And(Le(IntLit(0), lo), Le(lo, hi), Le(hi, IntLit(at.Len()))), "slice bounds (array): "+e.src(x), x.Pos())
+		ref := e.allocRef(st, "arrslice")
+		return e.bind("sl", MkSlice(ref, IntLit(0), Sub(hi, lo), Sub(IntLit(at.Len()), lo)))
+	}
 	if _, ok := bt.(*types.Slice); !ok {
 		if b, isB := bt.(*types.Basic); isB && b.Info()&types.IsString != 0 {
 			e.unsupportedf(x.Pos(), "string slicing")
